@@ -75,7 +75,7 @@ def pick_insert(p, kv, n, desc, others=(), again=()):
 @st.composite
 def _insert_cases(draw, tier):
     big = tier == "thorough"
-    d = draw(gen.spline(max_p=5 if big else 4, max_extra=5 if big else 3, affine_range="maybe", normalize="maybe",
+    d = draw(gen.spline(wspread=True, ranges=("far", "tiny"), max_p=5 if big else 4, max_extra=5 if big else 3, affine_range="maybe", normalize="maybe",
                         vol_max_p=3, vol_max_extra=2, long=True))
     pdim = len(d["degree"])
     nops = draw(st.integers(1, 8 if big else 4))
@@ -130,7 +130,7 @@ def check_insert(case, ctx):
     d = case["defn"]
     if d.get("precision"):
         obj = build.make(d, precision=d["precision"])
-    elif len(d["P"]) % 4 == 1:
+    elif len(d["P"]) % 4 == 1 and not build.tiny_range(d):
         # the shape may have been created with the documented alternative span search (used whenever it is evaluated)
         obj = build.make(d, find_span_func=helpers.find_span_binsearch)
         ctx.label("binary-span-search")
@@ -285,7 +285,7 @@ def check_reject(case, ctx):
 # ------------------------------------------------------------------------------------------------ helper level
 @st.composite
 def _helper_cases(draw, tier):
-    d = draw(gen.spline(kinds=("curve",), max_p=6 if tier == "thorough" else 4, max_extra=5, affine_range="maybe",
+    d = draw(gen.spline(ranges=("far", "tiny"), kinds=("curve",), max_p=6 if tier == "thorough" else 4, max_extra=5, affine_range="maybe",
                         normalize=False))
     return {"defn": d, "ins": draw(ins_desc()), "rows": draw(st.integers(0, 3))}
 
